@@ -76,6 +76,7 @@ type vSender struct {
 	env    [][]byte // env[k], k>=1 (env[0] unused)
 	pay    [][]byte
 	cids   []cid.Cid
+	g      *protocoltypes.Group // the group this stream of messages was sealed for
 }
 
 func vNewSender(t testing.TB, ctx context.Context, g *protocoltypes.Group, recvMember crypto.PubKey, n int, idBase uint64) *vSender {
@@ -83,11 +84,17 @@ func vNewSender(t testing.TB, ctx context.Context, g *protocoltypes.Group, recvM
 	if err != nil {
 		t.Fatal(err)
 	}
+	return vSenderWith(t, ctx, s, g, recvMember, n, idBase)
+}
+
+// vSenderWith: the messages and announcements of the device of store s on group g (the same store can
+// be used for several groups: on account and contact groups the device key is the same everywhere)
+func vSenderWith(t testing.TB, ctx context.Context, s *secretStore, g *protocoltypes.Group, recvMember crypto.PubKey, n int, idBase uint64) *vSender {
 	md, err := s.GetOwnMemberDeviceForGroup(g)
 	if err != nil {
 		t.Fatal(err)
 	}
-	v := &vSender{store: s, dev: md.Device()}
+	v := &vSender{store: s, dev: md.Device(), g: g}
 	v.devRaw, _ = v.dev.Raw()
 	v.env = [][]byte{nil}
 	v.pay = [][]byte{nil}
